@@ -217,3 +217,247 @@ def constapi_runner(lines):
     if "<bundle>" in verdict and acc:
         out[acc[0][0]] = "reject | orc=FAIL(%s)" % verdict["<bundle>"][:200]
     return out
+
+
+# ------------------------------------------------------------------------------------------------
+# C12: accept / reject programs (lengths, auto traits, lifetimes)
+# ------------------------------------------------------------------------------------------------
+
+def G(n, t="u8"):
+    return "GenericArray<%s, U%d>" % (t, n)
+
+
+def spec_len(form, a, b):
+    """python copy of the specification (used only to decide how to batch the compilations and as the oracle)"""
+    if form in ("append", "prepend"):
+        return [a + 1]
+    if form in ("pop_back", "pop_front", "remove", "swap_remove"):
+        return [a - 1] if a >= 1 else None
+    if form in ("split", "split_ref", "split_mut"):
+        return [b, a - b] if b <= a else None
+    if form == "concat":
+        return [a + b]
+    if form == "flatten":
+        return [a * b]
+    if form == "unflatten":
+        return [a // b] if b > 0 else None
+    if form == "zip":
+        return [a] if a == b else None
+    if form in ("eq", "partial_cmp", "cmp"):
+        return [] if a == b else None
+    if form in ("from_tuple", "into_tuple"):
+        return [a] if (a == b and 1 <= b <= 12) else None
+    # native / const-length conversions: a = type-level N, b = native U
+    return [b if form in ("into_array", "into_chunks", "into_chunks_mut") else a] if a == b else None
+
+
+def ann_len(ann, default="_"):
+    return default if ann == "infer" else "U%s" % ann
+
+
+def len_program(form, a, b, ann):
+    """body of `pub fn f(..)`; `ann` = 'infer' or the annotated result length"""
+    L = ann_len(ann)
+    Ln = "_" if ann == "infer" else ann          # for native lengths
+    if form == "append":
+        return "pub fn f(x: %s) { let r: GenericArray<u8, %s> = x.append(0); }" % (G(a), L)
+    if form == "prepend":
+        return "pub fn f(x: %s) { let r: GenericArray<u8, %s> = x.prepend(0); }" % (G(a), L)
+    if form == "pop_back":
+        return "pub fn f(x: %s) { let (r, _e): (GenericArray<u8, %s>, u8) = x.pop_back(); }" % (G(a), L)
+    if form == "pop_front":
+        return "pub fn f(x: %s) { let (_e, r): (u8, GenericArray<u8, %s>) = x.pop_front(); }" % (G(a), L)
+    if form == "remove":
+        return "pub fn f(x: %s) { let (_e, r): (u8, GenericArray<u8, %s>) = x.remove(0); }" % (G(a), L)
+    if form == "swap_remove":
+        return "pub fn f(x: %s) { let (_e, r): (u8, GenericArray<u8, %s>) = x.swap_remove(0); }" % (G(a), L)
+    if form == "split":
+        return "pub fn f(x: %s) { let (p, q): (%s, GenericArray<u8, %s>) = x.split(); }" % (G(a), G(b), L)
+    if form == "split_ref":
+        return "pub fn f(x: &%s) { let (p, q): (&%s, &GenericArray<u8, %s>) = x.split(); }" % (G(a), G(b), L)
+    if form == "split_mut":
+        return "pub fn f(x: &mut %s) { let (p, q): (&mut %s, &mut GenericArray<u8, %s>) = x.split(); }" % (G(a), G(b), L)
+    if form == "concat":
+        return "pub fn f(x: %s, y: %s) { let r: GenericArray<u8, %s> = x.concat(y); }" % (G(a), G(b), L)
+    if form == "flatten":
+        return "pub fn f(x: GenericArray<%s, U%d>) { let r: GenericArray<u8, %s> = x.flatten(); }" % (G(a), b, L)
+    if form == "unflatten":
+        return "pub fn f(x: %s) { let r: GenericArray<%s, %s> = x.unflatten(); }" % (G(a), G(b), L)
+    if form == "zip":
+        return "pub fn f(x: %s, y: %s) { let r: GenericArray<u8, %s> = x.zip(y, |p, q| p ^ q); }" % (G(a), G(b), L)
+    if form == "eq":
+        return "pub fn f(x: %s, y: %s) -> bool { x == y }" % (G(a), G(b))
+    if form == "partial_cmp":
+        return "pub fn f(x: %s, y: %s) -> bool { x.partial_cmp(&y).is_some() || x < y }" % (G(a), G(b))
+    if form == "cmp":
+        return "pub fn f(x: %s, y: %s) -> bool { x.cmp(&y).is_eq() }" % (G(a), G(b))
+    if form == "from_array":
+        return "pub fn f(x: [u8; %d]) { let r: %s = GenericArray::from_array(x); }" % (b, G(a))
+    if form == "into_array":
+        return "pub fn f(x: %s) { let r: [u8; %d] = x.into_array(); }" % (G(a), b)
+    if form == "from_native":
+        return "pub fn f(x: [u8; %d]) { let r: %s = GenericArray::from(x); }" % (b, G(a))
+    if form == "into_native":
+        return "pub fn f(x: %s) { let r: [u8; %d] = x.into(); }" % (G(a), b)
+    if form == "ref_native":
+        return "pub fn f(x: &[u8; %d]) { let r: &%s = x.into(); }" % (b, G(a))
+    if form == "mutref_native":
+        return "pub fn f(x: &mut [u8; %d]) { let r: &mut %s = x.into(); }" % (b, G(a))
+    if form == "asref_native":
+        return "pub fn f(x: &%s) { let r: &[u8; %d] = x.as_ref(); }" % (G(a), b)
+    if form == "asmut_native":
+        return "pub fn f(x: &mut %s) { let r: &mut [u8; %d] = x.as_mut(); }" % (G(a), b)
+    if form == "from_chunks":
+        return "pub fn f(x: &[[u8; %d]]) { let r: &[%s] = GenericArray::from_chunks(x); }" % (b, G(a))
+    if form == "from_chunks_mut":
+        return "pub fn f(x: &mut [[u8; %d]]) { let r: &mut [%s] = GenericArray::from_chunks_mut(x); }" % (b, G(a))
+    if form == "into_chunks":
+        return "pub fn f(x: &[%s]) { let r: &[[u8; %d]] = GenericArray::into_chunks(x); }" % (G(a), b)
+    if form == "into_chunks_mut":
+        return "pub fn f(x: &mut [%s]) { let r: &mut [[u8; %d]] = GenericArray::into_chunks_mut(x); }" % (G(a), b)
+    if form == "from_tuple":
+        return "pub fn f(x: (%s)) { let r: %s = x.into(); }" % ("u8, " * b, G(a))
+    if form == "into_tuple":
+        return "pub fn f(x: %s) { let r: (%s) = x.into(); }" % (G(a), "u8, " * b)
+    raise ValueError(form)
+
+
+ELEMS = {
+    "u8": ("u8", (1, 1, 1, 1)), "rc": ("std::rc::Rc<u8>", (0, 0, 0, 1)), "cell": ("std::cell::Cell<u8>", (1, 0, 0, 1)),
+    "guard": ("std::sync::MutexGuard<'static, u8>", (0, 1, 0, 0)), "string": ("String", (1, 1, 0, 1)), "noclone": ("NoClone", (1, 1, 0, 0)),
+}
+TRAITS = {"send": ("Send", 0), "sync": ("Sync", 1), "copy": ("Copy", 2), "clone": ("Clone", 3)}
+
+
+def auto_program(trait, target, elem, n):
+    T = ELEMS[elem][0]
+    ty = {"array": "GenericArray<%s, U%d>" % (T, n), "ref": "&'static GenericArray<%s, U%d>" % (T, n),
+          "iter": "GenericArrayIter<%s, U%d>" % (T, n)}[target]
+    return "pub struct NoClone(u8);\nfn need<X: %s>() {}\npub fn f() { need::<%s>(); }" % (TRAITS[trait][0], ty)
+
+
+def auto_spec(trait, target, elem):
+    c = ELEMS[elem][1]
+    if target == "ref":
+        return {"send": c[1], "sync": c[1]}[trait]
+    if target == "iter" and trait == "copy":
+        return 0
+    return c[TRAITS[trait][1]]
+
+
+A4 = "let mut src: GenericArray<u8, U4> = arr![1, 2, 3, 4];"
+N4 = "let mut src: [u8; 4] = [1, 2, 3, 4];"
+C22 = "let mut src: [GenericArray<u8, U2>; 2] = [arr![1, 2], arr![3, 4]];"
+NN22 = "let mut src: [[u8; 2]; 2] = [[1, 2], [3, 4]];"
+AA22 = "let mut src: GenericArray<GenericArray<u8, U2>, U2> = arr![arr![1, 2], arr![3, 4]];"
+IT4 = "let mut src: GenericArrayIter<u8, U4> = arr![1u8, 2, 3, 4].into_iter();"
+# api -> (source declaration, view expression, result type with {L} for the lifetime, is it a unique borrow)
+LIFE = {
+    "as_slice": (A4, "src.as_slice()", "&{L} [u8]", False),
+    "as_mut_slice": (A4, "src.as_mut_slice()", "&{L} mut [u8]", True),
+    "from_slice": (N4, "GenericArray::<u8, U4>::from_slice(&src)", "&{L} GenericArray<u8, U4>", False),
+    "try_from_slice": (N4, "GenericArray::<u8, U4>::try_from_slice(&src).unwrap()", "&{L} GenericArray<u8, U4>", False),
+    "from_mut_slice": (N4, "GenericArray::<u8, U4>::from_mut_slice(&mut src)", "&{L} mut GenericArray<u8, U4>", True),
+    "try_from_mut_slice": (N4, "GenericArray::<u8, U4>::try_from_mut_slice(&mut src).unwrap()", "&{L} mut GenericArray<u8, U4>", True),
+    "chunks_from_slice": (N4, "GenericArray::<u8, U2>::chunks_from_slice(&src).0", "&{L} [GenericArray<u8, U2>]", False),
+    "chunks_from_slice_mut": (N4, "GenericArray::<u8, U2>::chunks_from_slice_mut(&mut src).0", "&{L} mut [GenericArray<u8, U2>]", True),
+    "slice_from_chunks": (C22, "GenericArray::slice_from_chunks(&src)", "&{L} [u8]", False),
+    "slice_from_chunks_mut": (C22, "GenericArray::slice_from_chunks_mut(&mut src)", "&{L} mut [u8]", True),
+    "from_chunks": (NN22, "GenericArray::<u8, U2>::from_chunks(&src)", "&{L} [GenericArray<u8, U2>]", False),
+    "from_chunks_mut": (NN22, "GenericArray::<u8, U2>::from_chunks_mut(&mut src)", "&{L} mut [GenericArray<u8, U2>]", True),
+    "into_chunks": (C22, "GenericArray::<u8, U2>::into_chunks(&src)", "&{L} [[u8; 2]]", False),
+    "into_chunks_mut": (C22, "GenericArray::<u8, U2>::into_chunks_mut(&mut src)", "&{L} mut [[u8; 2]]", True),
+    "deref": (A4, "core::ops::Deref::deref(&src)", "&{L} [u8]", False),
+    "deref_mut": (A4, "core::ops::DerefMut::deref_mut(&mut src)", "&{L} mut [u8]", True),
+    "borrow": (A4, "core::borrow::Borrow::<[u8]>::borrow(&src)", "&{L} [u8]", False),
+    "borrow_mut": (A4, "core::borrow::BorrowMut::<[u8]>::borrow_mut(&mut src)", "&{L} mut [u8]", True),
+    "as_ref_slice": (A4, "AsRef::<[u8]>::as_ref(&src)", "&{L} [u8]", False),
+    "as_mut_slice_trait": (A4, "AsMut::<[u8]>::as_mut(&mut src)", "&{L} mut [u8]", True),
+    "as_ref_array": (A4, "AsRef::<[u8; 4]>::as_ref(&src)", "&{L} [u8; 4]", False),
+    "as_mut_array": (A4, "AsMut::<[u8; 4]>::as_mut(&mut src)", "&{L} mut [u8; 4]", True),
+    "from_array_ref": (N4, "<&GenericArray<u8, U4>>::from(&src)", "&{L} GenericArray<u8, U4>", False),
+    "from_array_mut": (N4, "<&mut GenericArray<u8, U4>>::from(&mut src)", "&{L} mut GenericArray<u8, U4>", True),
+    "try_from_ref": (N4, "<&GenericArray<u8, U4>>::try_from(&src[..]).unwrap()", "&{L} GenericArray<u8, U4>", False),
+    "try_from_mut": (N4, "<&mut GenericArray<u8, U4>>::try_from(&mut src[..]).unwrap()", "&{L} mut GenericArray<u8, U4>", True),
+    "split_ref": (A4, "Split::<u8, U2>::split(&src).0", "&{L} GenericArray<u8, U2>", False),
+    "split_mut": (A4, "Split::<u8, U2>::split(&mut src).1", "&{L} mut GenericArray<u8, U2>", True),
+    "flatten_ref": (AA22, "Flatten::flatten(&src)", "&{L} GenericArray<u8, U4>", False),
+    "flatten_mut": (AA22, "Flatten::flatten(&mut src)", "&{L} mut GenericArray<u8, U4>", True),
+    "unflatten_ref": (A4, "Unflatten::<u8, U4, U2>::unflatten(&src)", "&{L} GenericArray<GenericArray<u8, U2>, U2>", False),
+    "unflatten_mut": (A4, "Unflatten::<u8, U4, U2>::unflatten(&mut src)", "&{L} mut GenericArray<GenericArray<u8, U2>, U2>", True),
+    "into_iter_ref": (A4, "(&src).into_iter().next().unwrap()", "&{L} u8", False),
+    "into_iter_mut": (A4, "(&mut src).into_iter().next().unwrap()", "&{L} mut u8", True),
+    "iter_as_slice": (IT4, "src.as_slice()", "&{L} [u8]", False),
+    "iter_as_mut_slice": (IT4, "src.as_mut_slice()", "&{L} mut [u8]", True),
+}
+
+
+def life_program(api, prog):
+    src, mk, ty, uniq = LIFE[api]
+    t_ = lambda l: ty.replace("{L}", l)
+    touch = "fn touch<X: ?Sized>(_: &X) {}\n"
+    if prog == "ok":
+        return touch + "pub fn f() { %s let v: %s = %s; touch(&*v); }" % (src, t_("'_"), mk)
+    if prog == "escape":
+        return "pub fn f() -> %s { %s let v: %s = %s; v }" % (t_("'static"), src, t_("'_"), mk)
+    if prog == "moved":
+        init = src.split(" = ", 1)[1]          # overwrite the source while the view is alive
+        return touch + "pub fn f() { %s let v: %s = %s; src = %s touch(&*v); }" % (src, t_("'_"), mk, init)
+    if prog == "alias":
+        return touch + "pub fn f() { %s let v: %s = %s; let w: %s = %s; touch(&*v); touch(&*w); }" % (src, t_("'_"), mk, t_("'_"), mk)
+    raise ValueError(prog)
+
+
+BORROW_ERRORS = {"E0499", "E0502", "E0505", "E0506", "E0515", "E0597", "E0716", "E0521", "E0503", "E0713"}
+TYPE_ERRORS = {"E0277", "E0308", "E0271", "E0599", "E0282", "E0283", "E0284", "E0369", "E0275"}
+
+
+def types_item(line):
+    kv = kvs(line)
+    if kv["op"] == "len":
+        a, b = int(kv.get("a", 0)), int(kv.get("b", 0))
+        sp = spec_len(kv["form"], a, b)
+        ann = kv.get("ann", "infer")
+        ok = sp is not None and (ann == "infer" or not sp or sp[-1] == int(ann))
+        return len_program(kv["form"], a, b, ann), ("accept" if ok else "reject"), TYPE_ERRORS
+    if kv["op"] == "auto":
+        ok = auto_spec(kv["trait"], kv["target"], kv["elem"])
+        return auto_program(kv["trait"], kv["target"], kv["elem"], int(kv.get("n", 3))), ("accept" if ok else "reject"), {"E0277"}
+    if kv["op"] == "life":
+        prog = kv["prog"]
+        uniq = LIFE[kv["api"]][3]
+        ok = prog == "ok" or (prog == "alias" and not uniq)
+        return life_program(kv["api"], prog), ("accept" if ok else "reject"), BORROW_ERRORS
+    raise ValueError(line)
+
+
+def types_runner(lines):
+    import concurrent.futures
+    built = [types_item(l) for l in lines]
+    out = {}
+    acc = [(str(k), c + "\npub fn check() -> bool { true }") for k, (c, e, _) in enumerate(built) if e == "accept"]
+    rej = [(k, c) for k, (c, e, _) in enumerate(built) if e != "accept"]
+    parts = [acc[i::12] for i in range(12) if acc[i::12]]
+    with concurrent.futures.ThreadPoolExecutor(max_workers=12) as ex:
+        results = list(ex.map(lambda p: corpus.accept_bundle(p, run=False)[0], parts))
+    verdict = {}
+    for r in results:
+        verdict.update(r)
+    for k, _ in acc:
+        v = verdict.get(k, "reject:?")
+        if v in ("ok", "ok-alone") or v.startswith("FAIL(no-answer"):
+            out[k] = "accept | orc=ok"
+        else:
+            out[k] = "reject | orc=FAIL(a correct program is rejected: %s)" % v.replace("|", "/")[:200]
+    rs = corpus.compile_many([corpus.PRELUDE + c for _, c in rej], "check")
+    for (k, _), r in zip(rej, rs):
+        want = built[k][2]
+        if r["ok"]:
+            out[str(k)] = "accept | orc=FAIL(an incorrect program compiles)"
+        else:
+            codes = set(e["code"] for e in r["errors"])
+            if codes & want:
+                out[str(k)] = "reject | orc=ok"
+            else:
+                out[str(k)] = "reject | orc=FAIL(rejected for an unexpected reason %s: %s)" % (",".join(sorted(codes)), r["errors"][0]["message"][:120].replace("|", "/"))
+    return out
